@@ -239,3 +239,14 @@ def FState.process (da : DivArith) (u : FftUnit σ υ) (s : FState σ υ)
             .ok { nIn := s.framesNeeded, nOut := s.chunkOut, out := rs.map (·.2.2) })
 
 end Rubato
+
+namespace Rubato
+variable {σ υ : Type}
+
+/-- `set_resample_ratio` / `set_resample_ratio_relative` of the three synchronous types -/
+def FState.setRatio (s : FState σ υ) : FState σ υ × Except RErr Unit := (s, .error .syncNotAdjustable)
+
+/-- `set_chunk_size` (the trait's default method: the synchronous types do not override it) -/
+def FState.setChunk (s : FState σ υ) (_n : Nat) : FState σ υ × Except RErr Unit := (s, .error .chunkNotAdjustable)
+
+end Rubato
